@@ -1098,3 +1098,14 @@ mut('c04-cancel-skips-clean-children', 'C04', ['C04.6'], M,
     "            if any(r.status == 'pending' for r in child_event.event_results.values()):\n                child_event.event_cancel_pending_child_processing(error)\n",
     'recursion only into children that had pending results themselves')
 MUTANTS[:] = [m for m in MUTANTS if m is not None]
+mut('c01-handler-lookup-cached', 'C01', ['C01.1'], S,
+    "        applicable_handlers: list[EventHandler] = []\n\n        # Add event-type-specific handlers\n",
+    "        cache = self.__dict__.setdefault('_lookup_cache', {})\n        if event.event_type in cache:\n            return cache[event.event_type]\n        applicable_handlers: list[EventHandler] = []\n\n        # Add event-type-specific handlers\n",
+    'handler lookup memoised per event type (returns a stale mapping)')
+mut('c07-forward-declined-silently', 'C07', ['C07.6'], S,
+    "                f'⚠️ {self}.dispatch({event.event_type}) - Bus already in path, not adding again. Path: {event.event_path}'\n            )\n",
+    "                f'⚠️ {self}.dispatch({event.event_type}) - Bus already in path, not adding again. Path: {event.event_path}'\n            )\n            return event\n",
+    'a bus already in the path silently declines the event')
+mut('c08-errored-handler-reruns', 'C08', ['C08.7'], S,
+    "            elif existing_result.completed_at is not None:", "            elif existing_result.status == 'completed':",
+    'a handler whose result ended in error runs again on re-dispatch')
